@@ -86,7 +86,8 @@ class Case:
         spec = peggen.spec_field(gc)
         if self.dump and self.dump.startswith("B "):
             _, hb, words, consts = self.dump.split(" ")
-            L.append((("validate", "compile"), "validate %s %s %s" % (words, consts, spec)))
+            if not recursive:       # the validator unrolls the grammar: a recursive one never ends (exponential up to its fuel)
+                L.append((("validate", "compile"), "validate %s %s %s" % (words, consts, spec)))
             if compile_model_applies(gc):
                 L.append((("cmodel", "compile"), "compile %s" % ",".join(peggen.ptok(gc))))
             for kind in ("op", "den"):
